@@ -121,6 +121,9 @@ func DebugCompose(writer, parser, root string, rootPtr bool) {
 		fmt.Printf("-- source %s: %s\n", src.Name, src.Describe())
 		fmt.Printf("   total=%s ok=%v facts=%v\n", src.Total, src.TotalOK, src.St.Facts)
 		comp := ck.Compose(src, pf, ps, "$i", root, rootPtr, layout.ComposeOpts{})
+		if os.Getenv("ASTVERIF_GUIDED") != "" {
+			comp = ck.Guided(src, pf, "$i", root, rootPtr, layout.ComposeOpts{})
+		}
 		fmt.Printf("   parser outcomes compatible: %d consumed=%s assumed=%v\n", comp.Outcomes, comp.Consumed, comp.Assumed)
 		for _, pr := range comp.Problems {
 			fmt.Printf("   PROBLEM %s\n", pr)
